@@ -17,6 +17,10 @@ import time
 
 VERIF = os.path.dirname(os.path.dirname(os.path.abspath(__file__)))
 REPO = "/repo"
+# the checks may be run from a snapshot copy of /verif (VERIF_CHECK_DIR) so that work on /verif can go on while a batch
+# of seeded changes is evaluated; /repo is patched only while REPO_LOCK is held
+CHECK_DIR = os.environ.get("VERIF_CHECK_DIR", VERIF)
+REPO_LOCK = "/tmp/repo.lock"
 
 
 def sh(cmd, cwd=None, timeout=3600):
@@ -78,6 +82,9 @@ def main():
         (res["demo_with_patch"]["dev_rc"] != 0 or res["demo_with_patch"]["release_rc"] != 0)
     res["valid_seed"] = bool(ok)
     if ok:
+        import fcntl
+        lock = open(REPO_LOCK, "w")
+        fcntl.flock(lock, fcntl.LOCK_EX)
         rc, out = sh("git -C %s status --porcelain" % REPO)
         if out.strip():
             print("refusing: /repo is not clean:\n" + out)
@@ -87,11 +94,13 @@ def main():
         try:
             for c in checks:
                 t0 = time.time()
-                rc, out = sh([os.path.join(VERIF, "check"), c], cwd=VERIF, timeout=3000)
+                rc, out = sh([os.path.join(CHECK_DIR, "check"), c], cwd=CHECK_DIR, timeout=3000)
                 v = [l for l in out.splitlines() if l.startswith("VIOLATION")]
                 det[c] = dict(rc=rc, violation=v[:1], wall_s=round(time.time() - t0, 1))
         finally:
             sh("git -C %s checkout -- ." % REPO)
+            fcntl.flock(lock, fcntl.LOCK_UN)
+            lock.close()
         res["checks"] = det
         res["detected_by"] = [c for c, d in det.items() if d["rc"] == 1 and d["violation"]]
     print(json.dumps(res, indent=1))
